@@ -32,6 +32,15 @@ RULES2 = [(r'!([a-z_]+[.(])', r'\1'), (r'\b64\b', '63'), (r'\b128\b', '127'), (r
           (r' \+= ', ' -= '), (r' -= ', ' += '), (r'\.clone_from\(', '.clone_from('), (r'\.is_ok\(\)', '.is_err()'), (r'\.is_err\(\)', '.is_ok()')]
 
 
+# third batch: negated conditions, separators, slice bounds
+RULES3 = [(r'\bif ([^{}]*?[^ {}]) \{\s*$', r'if !(\1) {'), (r"':'", "'.'"), (r"'\.'", "':'"), (r'":"', '"."'), (r'"\."', '":"'), (r"'/'", "'.'"),
+          (r'\[1\.\.\]', '[0..]'), (r'\[\.\.([a-z_]+)\]', r'[..\1 + 1]'), (r'\.skip\(1\)', ''), (r'\.next_back\(\)', '.next()'),
+          (r'\.strip_prefix\(', '.strip_suffix('), (r'\.with_extension\(""\)', ''), (r'\.to_owned\(\)', '.to_owned()'),
+          (r'while (.*) \{\s*$', r'if \1 {'), (r'\.insert\(0, ', '.push('), (r'\.extend\(([^;]*)\);', ';'), (r'Some\(true\)', 'Some(false)'),
+          (r'Some\(false\)', 'Some(true)'), (r'\.unwrap_or\(Path::new\(""\)\)', '.unwrap_or(Path::new("x"))'), (r'\.parent\(\)', '.parent().and_then(|p| p.parent())'),
+          (r'=> Ok\(\(\)\),', '=> return Ok(()),'), (r'\.min\(', '.max(')]
+
+
 def sh(cmd, cwd=None, timeout=900):
     return subprocess.run(cmd, shell=True, cwd=cwd, stdout=subprocess.PIPE, stderr=subprocess.STDOUT, timeout=timeout)
 
@@ -126,6 +135,8 @@ def check():
 if __name__ == '__main__':
     if sys.argv[1] == 'gen':
         gen(int(sys.argv[2]) if len(sys.argv) > 2 else 200)
+    elif sys.argv[1] == 'gen3':
+        gen(int(sys.argv[2]) if len(sys.argv) > 2 else 300, rules=RULES3, tag='t', seed=13)
     elif sys.argv[1] == 'gen2':
         gen(int(sys.argv[2]) if len(sys.argv) > 2 else 300, rules=RULES2, tag='s', seed=11)
     else:
